@@ -240,9 +240,49 @@ func gitExec(c *Ctx, op string) {
 	if _, e := os.Lstat(filepath.Join(base, "cache", "git", "fileset", "012", "345", missing.Hash)); e == nil {
 		c.PropFail("git-missing-commit", "a shelf was created for a commit the repository lacks", op)
 	}
+	// ids that name objects of the repository which are not commits (root tree, a blob, an annotated tag): the
+	// repository lacks such a *commit*: ware-not-found, no panic, nothing cached
+	gitCmd(repo, "tag", "-a", "-m", "annotated", "vtag", target)
+	for _, spec := range []string{target + "^{tree}", "vtag", target + ":" + firstBlobPath(repo, target)} {
+		if strings.HasSuffix(spec, ":") {
+			continue
+		}
+		oid, e := gitCmd(repo, "rev-parse", spec)
+		oid = strings.TrimSpace(oid)
+		if e != nil || len(oid) != 40 || oid == target {
+			continue
+		}
+		nid := api.WareID{Type: "git", Hash: oid}
+		_, nerr, npan := safeCall(func() (api.WareID, error) {
+			return gittrans.Unpack(context.Background(), nid, filepath.Join(base, "dst3"), uf, rio.Placement_Copy, wh, rio.Monitor{})
+		})
+		c.H("noncommit-id")
+		if npan != "" {
+			c.PropFail("git-panic", "id of a non-commit object ("+spec+"): "+npan, op)
+		} else if nerr == nil || catOf(nerr) != "rio-ware-not-found" {
+			c.PropFail("git-missing-commit", fmt.Sprintf("the id of a non-commit object (%s) gave %v instead of rio-ware-not-found", spec, nerr), op)
+		}
+		if _, e := os.Lstat(filepath.Join(base, "cache", "git", "fileset", oid[0:3], oid[3:6], oid)); e == nil {
+			c.PropFail("git-missing-commit", "a shelf was created for the id of a non-commit object", op)
+		}
+	}
 	c.H("later:" + later)
 	c.H("res:" + strings.Fields(res + " x")[0][:min(5, len(strings.Fields(res + " x")[0]))])
 	c.Distinct(modelOp)
+}
+
+// firstBlobPath: some path of the commit's tree that is a blob ("" if none)
+func firstBlobPath(repo, commit string) string {
+	out, err := gitCmd(repo, "ls-tree", "-r", "--name-only", "-z", commit)
+	if err != nil {
+		return ""
+	}
+	for _, p := range strings.Split(out, "\x00") {
+		if p != "" && !strings.ContainsAny(p, "\n\"\\") {
+			return p
+		}
+	}
+	return ""
 }
 
 func permsOf(e Entry) int {
